@@ -866,30 +866,56 @@ def check_reducer_name(ctx, R):
 
 
 def check_window_fifo(ctx, R):
+    """on the let-normal form of every path of the diff functions: the history handed back is deque(<incoming history>)
+    (a copy), the batch is appended to it exactly once iff it has rows, and the history is only touched at its ends in
+    first-in first-out fashion (append / popleft / element 0)"""
+    import re
+    from ..symexpr import SymEval, nf
     M = ctx.model
+    BAD_OPS = ('appendleft', 'pop', 'insert', 'extendleft', 'rotate', 'reverse', 'sort', 'clear', 'remove')
     for name in ('diff_iloc', 'diff_loc', 'diff_expanding', 'diff_align'):
         fn = M.function(AGG, name)
-        bad = []
-        ops = set()
-        for n in own_nodes(fn.node):
-            if isinstance(n, ast.Call) and isinstance(n.func, ast.Attribute) and isinstance(n.func.value, ast.Name) \
-                    and n.func.value.id in ('dfs', 'groupers'):
-                ops.add(n.func.attr)
-                if n.func.attr in ('appendleft', 'pop', 'insert', 'extendleft', 'rotate', 'reverse'):
-                    bad.append(n)
-        for n in own_nodes(fn.node):
-            if isinstance(n, ast.Subscript) and isinstance(n.value, ast.Name) and n.value.id in ('dfs', 'groupers') \
-                    and isinstance(n.slice, ast.Constant) and n.slice.value not in (0,):
-                bad.append(n)
-        R.ob('WINDOW-FIFO', ctx.construct(fn), 'history', not bad,
-             'the window history is not first-in first-out: %s' % ', '.join(src(b)[:30] for b in bad),
-             ctx.where(fn, bad[0].lineno) if bad else ctx.where(fn, fn.node.lineno))
-        # the history handed back is the copy that was updated, and the incoming one is copied first
+        con = ctx.construct(fn)
+        params = fn.params()
+        paths = [r for r in SymEval(M, None, name_calls=True).run(fn) if not r.raised and r.ret is not None]
+        if not paths:
+            raise AnalysisError('%s: no returning path (unrecognised spelling)' % con)
+        bad_h, bad_c, bad_a = None, None, None
+        for r in paths:
+            ret = r.ret
+            if not (isinstance(ret, ast.Tuple) and len(ret.elts) == 2):
+                raise AnalysisError('%s: does not return a pair (unrecognised spelling)' % con)
+            if name == 'diff_align':
+                H = params[1]
+            else:
+                H = nf(ret.elts[0])
+                m_ = re.fullmatch(r'C(\d+)', H)
+                hc = r.calls[int(m_.group(1))][0] if m_ else None
+                if hc is None or nf(hc) != 'deque(%s)' % params[0]:
+                    bad_c = bad_c or 'the history handed back is %s, not a copy deque(%s) of the incoming one' % (
+                        nf(hc) if hc is not None else H, params[0])
+                    continue
+                apps = [c for c, s_, l in r.calls if isinstance(c, ast.Call) and nf(c.func) == H + '.append']
+                has_rows = next((o for c, o in r.conds if c.replace(' ', '') in ('len(%s)>0' % params[1], 'len(%s)' % params[1])), None)
+                if has_rows is None:
+                    has_rows = next((o for c, o in r.conds if _expand(r, c.replace(' ', ''), 1) in (
+                        'len(%s)>0' % params[1], 'len(%s)' % params[1])), None)
+                okargs = all(len(c.args) == 1 and nf(c.args[0]) == params[1] for c in apps)
+                if len(apps) > 1 or not okargs or (has_rows is True and len(apps) != 1) or (has_rows is False and apps) \
+                        or (has_rows is None and len(apps) != 1):
+                    bad_a = bad_a or 'the new batch is appended %d time(s) to the history (rows present: %s)' % (len(apps), has_rows)
+            texts = [nf(c) for c, s_, l in r.calls] + [c.replace(' ', '') for c, o in r.conds] + [nf(ret)]
+            for c, s_, l in r.calls:
+                if isinstance(c, ast.Call) and isinstance(c.func, ast.Attribute) and nf(c.func.value) == H and c.func.attr in BAD_OPS:
+                    bad_h = bad_h or '%s.%s()' % (params[0] if name != 'diff_align' else H, c.func.attr)
+            for t in texts:
+                for m2 in re.finditer(re.escape(H) + r'\[(-?\d+)\]', t):
+                    if m2.group(1) != '0':
+                        bad_h = bad_h or 'element [%s] of the history' % m2.group(1)
+                if 'LAST(%s)' % H in t:
+                    bad_h = bad_h or 'the newest element of the history is taken'
+        R.ob('WINDOW-FIFO', con, 'history', bad_h is None, 'the window history is not first-in first-out: %s' % bad_h,
+             ctx.where(fn, fn.node.lineno), None, len(paths))
         if name != 'diff_align':
-            first = [s for s in fn.node.body if isinstance(s, ast.Assign)]
-            okc = bool(first) and src(first[0].value) == 'deque(dfs)' and src(first[0].targets[0]) == 'dfs'
-            R.ob('WINDOW-FIFO', ctx.construct(fn), 'copies-history', okc,
-                 'the incoming history is not copied (deque(dfs)) before being updated', ctx.where(fn, fn.node.lineno))
-            app = [n for n in own_nodes(fn.node) if isinstance(n, ast.Call) and src(n.func) == 'dfs.append' and n.args and src(n.args[0]) == 'new']
-            R.ob('WINDOW-FIFO', ctx.construct(fn), 'appends-new', len(app) == 1, 'the new batch is not appended exactly once to the history',
-                 ctx.where(fn, fn.node.lineno))
+            R.ob('WINDOW-FIFO', con, 'copies-history', bad_c is None, bad_c or '', ctx.where(fn, fn.node.lineno))
+            R.ob('WINDOW-FIFO', con, 'appends-new', bad_a is None and bad_c is None, bad_a or bad_c or '', ctx.where(fn, fn.node.lineno))
